@@ -62,6 +62,11 @@ def run(ctx):
             ctx.violation("accepted program whose generated body (implementation's IR) fails the control-flow / define-before-use check",
                           {"case": {"program": pool.programs[i][0]}, "qml": pool.sources[i], "impl_output": pool.impl[i].get("code"), "oracle_output": r,
                            "theorem_or_correspondence": "S: cfg_ok on the implementation's IR (sound by C06_checker_sound)"})
+        elif r.startswith("(false") and pool.impl[i].get("ret") is not None and C.coq_eval_terms(
+                "c06r", hdr, ["let c := %s in returns_consistent (c_blocks c) (reach_candidate (c_blocks c))" % code], scope="nat_scope")[0].strip() == "false":
+            ctx.violation("the implementation resolves the return type %s although a reachable path of the generated body returns nothing (void and value returns mixed)" % json.dumps(pool.impl[i]["ret"]),
+                          {"case": {"program": pool.programs[i][0]}, "qml": pool.sources[i], "impl_output": pool.impl[i].get("code"), "oracle_output": r,
+                           "theorem_or_correspondence": "S: returns_consistent on the implementation's IR (C06_checker_sound)"})
         elif r.startswith("(false"):
             det = C.coq_eval_terms("c06j", hdr, ["let c := %s in let r := reach_candidate (c_blocks c) in let have := (seq 0 (c_nparams c) ++ %s)%%list in (reach_ok (c_blocks c) r, ins_ok (c_blocks c) r have (in_candidate (c_blocks c) have))" % (code, ex)], scope="nat_scope")[0]
             if "false" in det:
